@@ -483,3 +483,13 @@ pub fn sc_add(a: &[u8; 32], b: &[u8; 32]) -> [u8; 32] {
     unsafe { so::crypto_core_ed25519_scalar_add(r.as_mut_ptr(), a.as_ptr(), b.as_ptr()) };
     r
 }
+
+pub fn ed_sub(p: &[u8; 32], q: &[u8; 32]) -> Option<[u8; 32]> {
+    let mut r = [0u8; 32];
+    let rc = unsafe { so::crypto_core_ed25519_sub(r.as_mut_ptr(), p.as_ptr(), q.as_ptr()) };
+    if rc == 0 {
+        Some(r)
+    } else {
+        None
+    }
+}
